@@ -18,8 +18,28 @@ def runParse (cfg : String) (inp : List String) (obs : List String) : Option Ver
   let residue := if mode == "P9" ∧ (obsK.find? (·.startsWith "K")) != (mo.find? (·.startsWith "K")) then ["C09.input_residue"] else []
   -- sessions with status snapshots (domain p21): C11 / C12 judged on the registers between the messages
   let status := if mode == "P" ∧ obs.any (·.startsWith "s") then judgeStatus cmds ((inp.getD 2 "").toNat?.getD 0) obs else []
+  -- every message handed to the line parser is a contiguous piece of the input stream, and the pieces come in stream order
+  -- (bytes dropped by an overrun or still pending are never glued to later ones)
+  let integrity :=
+    if mode != "P" then [] else
+    let stream := (inp.drop 4).foldl (fun (acc : Lexer.Bytes) ch =>
+      if ch == "-" then acc
+      else if ch.startsWith "=L" then acc ++ ((unhex (ch.drop 2).toString).getD [])
+      else if ch.startsWith "=" then acc
+      else acc ++ ((unhex ch).getD [])) []
+    let msgs := obs.filterMap (fun t => if t.startsWith "P" then unhex (t.drop 1).toString else none)
+    let findFrom := fun (m : Lexer.Bytes) (start : Nat) =>
+      (List.range (stream.length + 1 - start - m.length + 1)).find? (fun k => ((stream.drop (start + k)).take m.length) == m)
+    let (_, bad) := msgs.foldl (fun (acc : Nat × Bool) m =>
+      if acc.2 ∨ m.isEmpty then acc
+      else if start_ok : acc.1 + m.length ≤ stream.length then
+        match findFrom m acc.1 with
+        | some k => (acc.1 + k + m.length, false)
+        | none => (acc.1, true)
+      else (acc.1, true)) (0, false)
+    if bad then ["C01.stream_integrity", "C02.stream_integrity", "C05.stream_integrity", "C06.stream_integrity", "C09.stream_integrity"] else []
   let tests := if obs.any (fun t => t == "V0" || t == "V1") then judgeTests cmds ra else []
-  let rej := (residue ++ judgeParse mode cmds inp obs ++ judgeParams cmds ra ++ (if mode == "P" then [] else judgeParams cmds rb) ++ status ++ tests).eraseDups
+  let rej := (residue ++ judgeParse mode cmds inp obs ++ judgeParams cmds ra ++ (if mode == "P" then [] else judgeParams cmds rb) ++ status ++ tests ++ integrity).eraseDups
   let tags := [mode] ++ parseTags obs ++ (if mode == "PU" then [if puConclusive inp then "unit_isolation_conclusive" else "unit_isolation_inconclusive"] else [])
   -- static-heap build: whether a text is stored depends on the heap (C20, domain H); the context model keeps every
   -- text, so the drained queue is compared by codes only in that configuration
